@@ -6,7 +6,7 @@ namespace rs {
 static const char* const kNames[K_COUNT] = { "none", "mark", "pass", "fail_cpp", "fail_c", "throw_std", "throw_foreign", "print", "clock",
     "alloc", "free", "realloc", "expect_leaks", "ignore_leaks", "ptr_set", "plugin_error",
     "die_signal", "die_exit", "die_abort", "die_stop", "fork_fail", "wait_eintr", "wait_error", "wait_stopped", "wait_exited", "wait_signaled",
-    "plugin_install", "plugin_remove" };
+    "plugin_install", "plugin_remove", "add_failures" };
 const char* kindName(int k) { return k >= 0 && k < K_COUNT ? kNames[k] : "none"; }
 int kindFromName(const char* s) { for (int i = 0; i < K_COUNT; i++) if (!strcmp(s, kNames[i])) return i; return K_NONE; }
 
@@ -108,7 +108,7 @@ void generate(uint64_t seed, const Str& profile, Desc& d, bool exceptions) {
     else if (profile == "selection") { f.filters = true; f.alphaNames = true; f.order = true; f.cfail = true; f.clockFaults = true; }
     else if (profile == "leaks") { f.leaks = true; f.cfail = true; f.throws = exceptions; f.pluginErr = true; f.plugins = true; }
     else if (profile == "pointers") { f.ptrs = true; f.plugins = true; f.cfail = true; f.throws = exceptions; f.overflowPtr = true; f.order = true; }
-    else if (profile == "junit") { f.junit = true; f.special_xml = true; f.cfail = true; f.throws = exceptions; f.clockFaults = true; f.pluginErr = true; f.plugins = true; }
+    else if (profile == "junit") { f.junit = true; f.special_xml = true; f.cfail = true; f.throws = exceptions; f.clockFaults = true; f.pluginErr = true; f.plugins = true; f.exampleFilters = true; }
     else if (profile == "teamcity") { f.teamcity = true; f.special_tc = true; f.cfail = true; f.throws = exceptions; f.order = true; f.clockFaults = true; f.exampleFilters = true; }
     else if (profile == "process") { f.procReal = true; f.throws = exceptions; f.cfail = true; f.pluginErr = true; f.plugins = true; f.leaks = true; f.order = true; }
     else if (profile == "process_syn") { f.procSyn = true; f.cfail = true; f.order = true; f.exampleFilters = true; }
@@ -178,7 +178,8 @@ void generate(uint64_t seed, const Str& profile, Desc& d, bool exceptions) {
                 Op o; o.phase = ph; o.d = ++opLine;
                 unsigned w = (unsigned)world.below(100);
                 if (w < 35) { o.kind = K_PASS; o.a = (int64_t)world.below(N_PASS_KINDS); }
-                else if (w < 50) o.kind = K_MARK;
+                else if (w < 49) o.kind = K_MARK;
+                else if (w < 50) { if (enFailCpp && world.chance(1, 3)) { o.kind = K_ADD_FAILURES; static const int ns[] = { 1, 2, 3, 255, 256, 257, 512 }; o.a = ns[world.below(world.chance(1, 4) ? 7 : 3)]; o.s2 = sfmt("tk%d_", opLine); } else o.kind = K_MARK; }
                 else if (w < 60 && enPrint) { o.kind = K_PRINT; o.s2 = textWithSpecials(world, f, sfmt("pr%d_", opLine).c_str()); }
                 else if (w < 66 && enClock) { o.kind = K_CLOCK; static const int64_t deltas[] = { 1, 5, 100, 999, 1000, 60000, -1, -500, 4233600000LL, -4233600000LL, 0, 4294967295LL }; o.a = deltas[world.below(12)]; }
                 else if (w < 90 && f.leaks) {
